@@ -292,9 +292,9 @@ def r16_5(ctx, J):
             if isinstance(n, ast.Dict) and reads_type:
                 handled |= {k.value for k in n.keys if isinstance(k, ast.Constant) and isinstance(k.value, str) and k.value in ctx.repo.classes}
             # a (type name, class) table: the name is dispatched on when it is paired with the class it stands for
-            if isinstance(n, (ast.Tuple, ast.List)) and reads_type and len(n.elts) == 2 and isinstance(n.elts[0], ast.Constant) and isinstance(n.elts[0].value, str) \
-                    and isinstance(n.elts[1], ast.Name) and n.elts[1].id in ctx.repo.classes:
-                handled.add(n.elts[0].value)
+            if isinstance(n, (ast.Tuple, ast.List)) and reads_type and len(n.elts) >= 2 and isinstance(n.elts[0], ast.Constant) and isinstance(n.elts[0].value, str) \
+                    and any(isinstance(x, ast.Name) and x.id == n.elts[0].value and x.id in ctx.repo.classes for x in n.elts[1:]):
+                handled.add(n.elts[0].value)   # (the row may carry more columns: a decoder, defaults ...)
         for sc in ctx.repo.subclasses(base):
             ctx.instance(f"{reader_cls}:dispatch:{sc}")
             if sc not in handled:
